@@ -52,13 +52,14 @@ type task struct {
 
 // S is one simulated execution.
 type S struct {
-	tasks  []task
-	cur    int
-	step   int64
-	seq    int64
-	rng    uint64
-	policy int
-	denom  uint64
+	blockedRun int64 // Blocked polls since the last statement any task executed
+	tasks      []task
+	cur        int
+	step       int64
+	seq        int64
+	rng        uint64
+	policy     int
+	denom      uint64
 	// preempt policy: task-local steps at which a task is preempted
 	preemptAt [][]int64
 	// PCT
@@ -359,6 +360,7 @@ func (s *S) Yield(site uint32) {
 		return
 	}
 	s.step++
+	s.blockedRun = 0
 	s.tasks[t].localStep++
 	s.lastSite = site
 	next := t
@@ -409,6 +411,15 @@ func (s *S) Yield(site uint32) {
 
 //go:norace
 func (s *S) switchTo(from, to int, site uint32) {
+	s.switchTo2(from, to, site, false)
+}
+
+// switchTo2: quiet switches (the polls of tasks that wait for a lock, past the first 64 in a
+// row) are neither recorded nor checked: there can be hundreds of thousands of them and a
+// replay finds its way without them (Blocked falls back to round robin).
+//
+//go:norace
+func (s *S) switchTo2(from, to int, site uint32, quiet bool) {
 	if s.inOp[from] {
 		s.SwitchInsideOp++
 		if len(s.Pairs) < cap(s.Pairs) {
@@ -416,12 +427,14 @@ func (s *S) switchTo(from, to int, site uint32) {
 		}
 	}
 	s.parkSite[from] = site
-	s.sinceCheck++
-	if s.Check != nil && s.CheckEvery > 0 && s.sinceCheck >= s.CheckEvery {
-		s.sinceCheck = 0
-		s.Check(from, site, s.step)
+	if !quiet {
+		s.sinceCheck++
+		if s.Check != nil && s.CheckEvery > 0 && s.sinceCheck >= s.CheckEvery {
+			s.sinceCheck = 0
+			s.Check(from, site, s.step)
+		}
+		s.record(Switch{Step: s.step, From: from, To: to, Site: site})
 	}
-	s.record(Switch{Step: s.step, From: from, To: to, Site: site})
 	s.cur = to
 	s.wake(to)
 	s.park(from)
@@ -448,7 +461,8 @@ func (s *S) Blocked() {
 	}
 	s.step++
 	s.BlockedPolls++
-	if s.BlockedPolls > 2000000 {
+	s.blockedRun++
+	if s.blockedRun > 200000 {
 		// tasks blocked on each other for ever: a deadlock or livelock of the code under test
 		msg := []byte("verif-sched: tasks blocked on each other (deadlock or livelock)\n")
 		rawWrite(2, &msg[0], len(msg))
@@ -473,9 +487,12 @@ func (s *S) Blocked() {
 		next = s.liveOther(t)
 	}
 	if next < 0 {
-		panic(DeadlockPanic{})
+		// no other task to run: the holder can still be a goroutine the code under test started
+		// itself (it lets go in a moment); a lock that stays taken ends in the livelock exit above
+		osyield()
+		return
 	}
-	s.switchTo(t, next, 0xfffffffc)
+	s.switchTo2(t, next, 0xfffffffc, s.blockedRun > 64)
 }
 
 // nextLiveAfter: round robin, so that a replay whose schedule was thinned out
